@@ -67,6 +67,10 @@ def rand_map(rng, max_seg=6, big=False):
             n = rng.choice([1, 1000, 10**6, 10**9, rng.randint(10**6, 10**9), rng.choice(gen.C08_PAST)])
         tempo.append((t, n))
         t += rng.choice([1, 2, res, 4 * res, rng.randint(1, 5000), rng.randint(1, 40)]) if not big else rng.randint(1, 10**7)
+    if rng.random() < 0.08 and res >= 96 and all(n >= 20000 for _, n in tempo):
+        # tempo changes far into the chart: past 2^31 / 2^32 ticks (months of music at ordinary tempi, still well inside a timedelta)
+        far = max(t, rng.choice([2**31 - 5, 2**32 - 3, 2**32 + 192, 2**33 + 1]))
+        tempo += [(far, rng.choice([120000, 90000, 200000])), (far + rng.choice([1, 192, 19200]), rng.choice([60000, 150000]))]
     return res, tempo
 
 
